@@ -11,4 +11,11 @@ S=$(mktemp -d /dev/shm/verif-setup-XXXXXX 2>/dev/null || mktemp -d)
 trap 'rm -rf "$S"' EXIT
 bin/instr -out "$S" github.com/olive-io/bpmn/v2 github.com/olive-io/bpmn/v2/pkg/... github.com/olive-io/bpmn/v2/model github.com/muyo/sno github.com/muyo/sno/internal verif/harness/...
 go build -overlay "$S/overlay.json" -o "$S/worker" ./harness/cmd/worker
+# the same in race mode (C17): warms the -race cache
+go build -race -gcflags=github.com/olive-io/bpmn/v2/verifrt=-race=false -overlay "$S/overlay.json" -o "$S/worker-race" ./harness/cmd/worker
+rm -rf "$S"
+# conformance suite of the controlled runtime (pseudo-property RT), in normal and in race mode:
+# a failure here is a framework error and fails the set-up
+./vcheck run RT --tier quick
+VERIF_RACE=1 ./vcheck run RT --tier quick
 echo setup ok
